@@ -100,7 +100,8 @@ def run(name, props, extra):
     if out.strip():
         print("refusing: /repo has uncommitted changes\n" + out)
         return 2
-    rc, out = sh(["git", "-C", "/repo", "apply", os.path.join(d, "patch.diff")])
+    pf = os.path.join(d, "patch.rebased.diff") if os.path.exists(os.path.join(d, "patch.rebased.diff")) else os.path.join(d, "patch.diff")
+    rc, out = sh(["git", "-C", "/repo", "apply", pf])
     if rc:
         print("patch does not apply:", out)
         return 2
